@@ -3,6 +3,7 @@
 #include <memory>
 #include <optional>
 #include "common_types.h"
+#include "crash.h"
 
 namespace Teakra {
 struct SharedMemory {
@@ -19,12 +20,14 @@ struct SharedMemory {
     }
 
     u16 ReadWord(u32 word_address) const {
+        ASSERT(word_address < 0x40000);
         u32 byte_address = word_address * 2;
         u8 low = raw[byte_address];
         u8 high = raw[byte_address + 1];
         return low | ((u16)high << 8);
     }
     void WriteWord(u32 word_address, u16 value) {
+        ASSERT(word_address < 0x40000);
         u8 low = value & 0xFF;
         u8 high = value >> 8;
         u32 byte_address = word_address * 2;
